@@ -972,7 +972,16 @@ impl TypeSpec {
             writeln!(o, "impl{ig} ::core::cmp::PartialOrd for {st}{} {{ fn partial_cmp(&self, _o: &Self) -> ::core::option::Option<::core::cmp::Ordering> {{ ::core::option::Option::None }} }}", wcs("::core::cmp::PartialEq")).unwrap();
         }
         if need_clone {
-            writeln!(o, "impl{ig} ::core::clone::Clone for {st}{wc} {{ fn clone(&self) -> Self {{ unsafe {{ ::core::ptr::read(self) }} }} }}").unwrap();
+            // narrower than `every field is Copy`: conditional on the type parameters being Clone and Send (every instantiation
+            // the harness uses is Send, but no impl can prove it for a generic T), so that the `Self: Clone` predicate of a
+            // stand-alone Copy is needed
+            let mut preds: Vec<String> = self.gens.where_preds.clone();
+            // (with an explicit bound mode on Copy the user has to make the supertrait provable himself: plain Clone then)
+            let auto = !matches!(self.attr(Tr::Copy).and_then(|a| a.bound()), Some(BoundV::All) | Some(BoundV::Custom(_)) | Some(BoundV::False));
+            let narrow = if auto { " + ::core::marker::Send" } else { "" };
+            preds.extend(self.gens.types.iter().filter(|t| !t.bounds.iter().any(|b| b == "?Sized")).map(|t| format!("{}: ::core::clone::Clone{narrow}", t.name)));
+            let wcc = if preds.is_empty() { String::new() } else { format!(" where {}", preds.join(", ")) };
+            writeln!(o, "impl{ig} ::core::clone::Clone for {st}{wcc} {{ fn clone(&self) -> Self {{ unsafe {{ ::core::ptr::read(self) }} }} }}").unwrap();
         }
         // other user-written items the request relies on (e.g. the From impls behind a literal type-level expression)
         for e in &self.extra_items {
